@@ -140,7 +140,7 @@ class Msg:
                   "nobody": bool(nobody), "wflush": bool(wflush), "noframe": bool(noframe)},
         }
 
-def conn(msgs, c, prog=None, cuts=None, window=None, no_read=False, trailing=b""):
+def conn(msgs, c, prog=None, cuts=None, window=None, no_read=False, trailing=b"", trailing_cls=None, trailing_why="C10"):
     """concrete connection from a list of Msg"""
     stream = b""
     cm = []
@@ -156,13 +156,20 @@ def conn(msgs, c, prog=None, cuts=None, window=None, no_read=False, trailing=b""
         j = dict(b["j"])
         j.update({"hs": hs, "he": he, "be": be})
         jm.append(j)
+    if trailing and trailing_cls is not None:
+        # the trailing bytes are a (malformed) message of their own
+        hs = len(stream)
+        e = hs + len(trailing)
+        cm.append({"hs": hs, "he": e, "be": e, "body_hex": "", "ishead": False})
+        jm.append({"hs": hs, "he": e, "be": e, "cls": trailing_cls, "why": trailing_why, "last": False, "bk": "none", "blen": 0,
+                   "exp": False, "how": "respond", "st": 400, "rlen": 0, "nobody": False, "wflush": False, "noframe": False})
     stream += trailing
     if prog is None:
         prog = [{"op": "send", "to": len(stream), "cuts": cuts or []}]
     d = {"stream_hex": stream.hex(), "msgs": cm, "prog": prog, "no_read": no_read}
     if window is not None:
         d["window"] = window
-    return d, {"msgs": jm}, len(stream)
+    return d, {"msgs": jm, "noread": bool(no_read)}, len(stream)
 
 def scenario(sid, prop, conns, apps, horizon_ms=1000, single=None, reclaim=None, **extra):
     cc = []
